@@ -7,6 +7,13 @@ modelled functions are unreachable), `shutdown` is issued exactly once and last,
 loop exits nothing is computable, ongoing or unfetched. The liveness clauses (progress, bounded
 rounds, all tasks completed at exit) hold only under FIFO delivery on the pinned tree
 (known finding C03-last-output-overtakes) and are checked by the watchdog oracle of the check.
+
+"FIFO" (`fifoStep`, Lemmas/SchedInvDefs.lean) is PER-PRODUCER order, what one worker's channel guarantees: of each
+task's pending output notices a received batch takes a prefix in their order; notices of different tasks, transfer
+notices and payloads may overtake each other and be batched in any way. The global discipline "a batch is a prefix of
+all pending events" is a special case (`fifoStep_of_prefix`), and so are the deliveries of FIFO executors whose task
+bodies publish their outputs one at a time (Model/CtrlN.lean): the X driver evaluates `fifoStep` on every batch of the
+harness' FIFO runs.
 -/
 import EkwVerif.Lemmas.SchedBound
 
@@ -82,8 +89,8 @@ theorem c03_sched_no_crash (f : Sem) (j : Job) (cl : Cluster) (cm : Comps) (wf :
   have h := invX_reachable f j cl cm wf wfc x hr
   exact ⟨h.hS.no_schErr, (c03_no_crash f j cl wf x.sys (sS1_reachableX_base f j cl cm x hr)).1⟩
 
-/-- **All tasks completed when the loop exits — under FIFO delivery** (events reach the controller
-in production order). Under any-order delivery this is false on the pinned tree (known finding
+/-- **All tasks completed when the loop exits — under FIFO delivery** (each task's output notices reach the
+controller in production order). Under any-order delivery this is false on the pinned tree (known finding
 C03-last-output-overtakes), hence the `_partial` suffix. -/
 theorem c03_done_partial (f : Sem) (j : Job) (cl : Cluster) (cm : Comps) (wf : WF j cl) (x : SysX)
     (hr : ReachableFifo f j cl cm x) (hfin : x.sys.phase = .finished) :
@@ -113,5 +120,10 @@ only). Proof: a potential that never increases and drops at every dispatch and e
 theorem c03_bounded_partial (f : Sem) (j : Job) (cl : Cluster) (cm : Comps) (wf : WF j cl) (wfc : WFC j cm)
     (feas : Feasible j cl) (x : SysX) (hr : ReachableFifo f j cl cm x) : x.sys.rounds ≤ roundBound j :=
   sB_rounds_bounded f j cl cm wf wfc feas x hr
+
+/-- the FIFO hypothesis is satisfiable by more than the trivial discipline: any batch that is a prefix of all pending
+events satisfies it, and so does a batch that lets another task's notice overtake (non-vacuity of the generalisation) -/
+example (x : SysX) (evs : List Event) (h : evs = x.sys.env.pending.take evs.length) : fifoStep x (.base (.recv evs)) :=
+  fifoStep_of_prefix x evs h
 
 end EkwVerif.Ctrl
